@@ -26,6 +26,13 @@ compared demand.  C02.5 the bucket walk advances over children that are not
 up instead of leaving the loop.  C02.6 identity release (shared with C05.1).
 C02.7 exact fit is admitted (capacity guard non-strict on the accept side,
 affinity count < limit).
+Added by the seeding rounds - C02.1 trait propagation refreshes the parent's
+entry on every path; C02.4 the feasibility memo reads only guarding tests of
+put and keys on required traits; C02.5 the bucket gives up before walking its
+children only on the admission predicate, with no child, or after a successful
+put; C02.7 check_app_constraints rejects only on label / traits / affinity
+limit / ANY(free < demand), and decrement_affinity withdraws the whole
+multiset (shared with C04).
 Does NOT decide the liveness statement as a whole (quiescent states reached
 by histories) nor the strategies' index arithmetic.
 """
